@@ -166,12 +166,14 @@ def Iter.next (it : Iter) : Option Line × Iter :=
     | none =>
       (some { text := it.text, offset := it.offset }, { it with text := [] })
 
-/-- haystack of `next_back`: the text with one trailing line ending trimmed. -/
+/-- haystack of `next_back`: the text with one trailing line ending trimmed
+    (`match bytes[len - 1] { b'\n' if len > 1 && bytes[len - 2] == b'\r' => ..len - 2, b'\n' | b'\r' => ..len - 1, _ => text }`,
+    written on the reversed byte list). -/
 def trimTrailing (t : List Nat) : List Nat :=
-  let len := t.length
-  match t[len - 1]? with
-  | some 10 => if len > 1 ∧ t[len - 2]? = some 13 then t.take (len - 2) else t.take (len - 1)
-  | some 13 => t.take (len - 1)
+  match t.reverse with
+  | 10 :: 13 :: r => r.reverse
+  | 10 :: r => r.reverse
+  | 13 :: r => r.reverse
   | _ => t
 
 /-- `DoubleEndedIterator::next_back` -/
